@@ -98,6 +98,17 @@ def getSample (vin : List τ) (k : Nat) (replace : Bool) (draws : List Nat) (hat
   else if replace then sampleRepl vin k draws
   else selectBy vin (hat.take k)
 
+/-- the law of an unweighted pick given its integer draw: the element at the position the draw
+designates (the draw itself is uniform on `0..n-1` by the primitive's contract) -/
+def lawPickAt [BEq τ] (v : List τ) (pos : Nat) (e : τ) : Bool := v[pos]? == some e
+
+/-- every element of an unweighted sample with replacement is the source element at the position
+its own integer draw designates -/
+def lawSampleUnif [BEq τ] (vin : List τ) : List Nat → List τ → Bool
+  | [], [] => true
+  | d :: ds, x :: xs => lawPickAt vin d x && lawSampleUnif vin ds xs
+  | _, _ => false
+
 end Pick
 
 /-! ## weighted picks   RandomTools.h:288-344 -/
@@ -207,6 +218,62 @@ def getSampleW (vin : List τ) (w : List α) (k : Nat) (replace : Bool) (draws :
       | .error e => .error e
       | .ok ps => selectBy vin ps
 
+/-! ### the law of a weighted pick as an executable predicate
+
+"Follows the given weights" for one pick: the element returned is the one whose *weight interval*,
+normalised by the total `S = Σw`, contains the uniform draw `u`:
+`c_{i-1}/S ≤ u < c_i/S` with `c = cumSum w`, `c_{-1} = 0`.  The intervals of the positions partition
+`[0, 1)` and the one of position `i` has length `wᵢ/S` (`BppProofs/Props/C18.lean`:
+`inWeightInterval_iff`, `weighted_pick_interval_length`), so a sampler all of whose picks satisfy
+this predicate on uniform draws follows the weights.  The predicate does not search: it is a
+specification, evaluated by the driver on the implementation's recorded draws and proved of the
+model for all draws. -/
+
+/-- `u` lies in the weight interval of position `i` -/
+def inWeightInterval (w : List α) (u : α) (i : Nat) : Bool :=
+  let c := cumSum w
+  match c.getLast?, c[i]? with
+  | some S, some ci =>
+    match i with
+    | 0 => Scalar.leb (Scalar.ofInt 0 / S) u && Scalar.ltb u (ci / S)
+    | j + 1 =>
+      match c[j]? with
+      | some p => Scalar.leb (p / S) u && Scalar.ltb u (ci / S)
+      | none => false
+  | _, _ => false
+
+/-- the assumptions under which "follows the weights" means something: non-negative weights with a
+positive total -/
+def weightsOk (w : List α) : Bool :=
+  w.all (fun x => Scalar.leb (Scalar.ofInt 0) x) &&
+  (match (cumSum w).getLast? with
+   | some S => Scalar.ltb (Scalar.ofInt 0) S
+   | none => false)
+
+/-- `x` is the element (of `v`, with weights `w`) whose weight interval contains `u` -/
+def lawElem [BEq τ] (v : List τ) (w : List α) (u : α) (x : τ) : Bool :=
+  (List.range v.length).any (fun i => v[i]? == some x && inWeightInterval w u i)
+
+/-- every element of a weighted sample *with* replacement is the element whose weight interval
+contains its own uniform draw (one draw per element, in order) -/
+def lawSampleRepl [BEq τ] (v : List τ) (w : List α) : List α → List τ → Bool
+  | [], [] => true
+  | u :: us, x :: xs => lawElem v w u x && lawSampleRepl v w us xs
+  | _, _ => false
+
+/-- the same *without* replacement: each element is the one whose interval — among the elements
+still present, with their weights, in the order the code keeps them (`swapPop`) — contains its draw -/
+def lawSampleNoRepl [BEq τ] : List α → List τ → List τ → List α → Bool
+  | [], [], _, _ => true
+  | u :: us, x :: xs, v, w =>
+    (List.range v.length).any (fun i =>
+      v[i]? == some x && inWeightInterval w u i && lawSampleNoRepl us xs (swapPop v i) (swapPop w i))
+  | _, _, _, _ => false
+
+/-- number of strictly positive weights (a weighted sample without replacement of at most this
+size never meets an all-zero remainder) -/
+def nPositive (w : List α) : Nat := (w.filter (fun x => Scalar.ltb (Scalar.ofInt 0) x)).length
+
 /-- `size_t pickFromCumSum(const std::vector<double>& w)` (after `fix:` 57b79ce: an empty vector
 raises; before, `w.size()-1` wrapped and `w[0]` was read).  RandomTools.h:364-377 -/
 def pickFromCumSum (w : List α) (prob : α) : R Nat :=
@@ -214,6 +281,27 @@ def pickFromCumSum (w : List α) (prob : α) : R Nat :=
   else match searchLe prob w.dropLast 0 with
     | some i => .ok i
     | none => .ok (w.length - 1)
+
+/-- the law of `pickFromCumSum` as a predicate on (cumulative vector, draw, returned index): every
+earlier entry is `< u`, and the index is the last one or `u ≤ w[p]` — for a non-decreasing `w` this is
+`w[p-1] < u ≤ w[p]` -/
+def cumSumPickOk (w : List α) (u : α) (p : Nat) : Bool :=
+  match w[p]? with
+  | none => false
+  | some x => (w.take p).all (fun y => Scalar.ltb y u) && (p + 1 == w.length || Scalar.leb u x)
+
+/-- `r` falls on step `j` of the running sums `c` (inverse-cdf draws: `randMultinomial`,
+`AbstractDiscreteDistribution::rand`): `c[j-1] < r ≤ c[j]`, closed at the bottom for `j = 0` -/
+def inCdfStep (c : List α) (r : α) (j : Nat) : Bool :=
+  match c[j]? with
+  | none => false
+  | some cj =>
+    Scalar.leb r cj &&
+    (match j with
+     | 0 => true
+     | i + 1 => match c[i]? with
+       | some ci => Scalar.ltb ci r
+       | none => false)
 
 /-- the unrepaired `pickFromCumSum` on an empty vector: `while (pos < w.size() - 1)` with
 `w.size() - 1 = 2^64-1`, first iteration reads `w[0]` -/
@@ -248,6 +336,16 @@ def randMultinomial (probs : List α) : Nat → List α → R (List Nat)
     | .error e => .error e
     | .ok l => .ok (multinomialState probs r :: l)
 
+/-- the running sums `cumprob` of `randMultinomial`: `cumprob += probs[j] / s` from 0 -/
+def multinomialCums (probs : List α) : List α :=
+  cumSumFrom (Scalar.ofInt 0) (probs.map (· / sumFromZero probs))
+
+/-- the law of one multinomial state given its draw: state `j < k` iff `r` falls on step `j` of the
+running sums of `probs/Σprobs`; the "not found" state `k` iff `r` is above all of them -/
+def multinomialLawOk (probs : List α) (r : α) (j : Nat) : Bool :=
+  if j = probs.length then (multinomialCums probs).all (fun c => !(Scalar.leb r c))
+  else inCdfStep (multinomialCums probs) r j
+
 /-- how often each state `0..k` (state `k = probs.size()` is the "not found" value) occurs -/
 def counts (k : Nat) (states : List Nat) : List Nat :=
   (List.range (k + 1)).map (fun j => states.count j)
@@ -263,6 +361,13 @@ def dRandFrom (r : α) : α → List (α × α) → α
     if Scalar.leb r cum' then c else dRandFrom r cum' rest
 
 def dRand (dist : List (α × α)) (r : α) : α := dRandFrom r (Scalar.ofInt 0) dist
+
+/-- the law of the discrete draw: `x` is the category on whose step of the cumulative
+probabilities the draw `r` falls -/
+def dRandLawOk (dist : List (α × α)) (r : α) (x : α) : Bool :=
+  (List.range dist.length).any (fun i =>
+    (match dist[i]? with | some cp => Scalar.eqb cp.1 x | none => false) &&
+    inCdfStep (cumSumFrom (Scalar.ofInt 0) (dist.map (·.2))) r i)
 
 /-! ## first / next state of a hidden Markov chain   AbstractHmmTransitionMatrix.cpp:48-91 -/
 
@@ -282,6 +387,38 @@ def hmmState (p : List α) (prob : α) (dflt : Option Nat) : R Nat :=
   | none => match dflt with
     | some d => .ok d
     | none => .error .ub
+
+/-- the running remainders of the subtractive search: `rem_j = u - p_0 - … - p_j` (the arithmetic of the code) -/
+def remainders : α → List α → List α
+  | _, [] => []
+  | prob, q :: qs => (prob - q) :: remainders (prob - q) qs
+
+/-- the law of one state of the chain as a predicate on (row, draw, state): `rem_i < 0` and no earlier
+remainder is — for a non-negative row: `Σ_{j<i} p_j ≤ u < Σ_{j≤i} p_j` (`hmm_step_law`) -/
+def hmmStepOk (p : List α) (u : α) (i : Nat) : Bool :=
+  let r := remainders u p
+  match r[i]? with
+  | none => false
+  | some ri => Scalar.ltb ri (Scalar.ofInt 0) && (r.take i).all (fun x => !(Scalar.ltb x (Scalar.ofInt 0)))
+
+/-- the first state: as above, or the initial value `sta = 0` when no remainder is negative -/
+def hmmFirstOk (eq : List α) (u : α) (s : Nat) : Bool :=
+  hmmStepOk eq u s || (s == 0 && (remainders u eq).all (fun x => !(Scalar.ltb x (Scalar.ofInt 0))))
+
+/-- every following state lies on the step of its own draw within the transition row of its predecessor -/
+def hmmChainOk (rows : List (List α)) : Nat → List α → List Nat → Bool
+  | _, [], [] => true
+  | prev, u :: us, s :: ss =>
+    (match rows[prev]? with
+     | some row => hmmStepOk row u s
+     | none => false) && hmmChainOk rows s us ss
+  | _, _, _ => false
+
+/-- the law of a sampled chain given its draws (one per state) -/
+def hmmSampleLawOk (eq : List α) (rows : List (List α)) : List α → List Nat → Bool
+  | [], [] => true
+  | u :: us, s :: ss => hmmFirstOk eq u s && hmmChainOk rows s us ss
+  | _, _ => false
 
 /-- the states after the first one; `row s` is the transition row of state `s` -/
 def hmmChain (rows : List (List α)) : Nat → Nat → List α → R (List Nat)
@@ -446,6 +583,34 @@ def pvalueOfCount (count nb : Nat) : α := Scalar.ofInt ((count + 1 : Nat) : Int
 /-- the p-value given the simulated statistics (one per permutation) -/
 def permPValue (stat : α) (sims : List α) : α := pvalueOfCount (countGe stat sims) sims.length
 
+/-- the body of the Monte-Carlo loop, `iters` times:
+`table_rep = ctgen.rcont2(); stat_rep = …; if (stat_rep >= statistic_) count++;`
+`sims` is the stream of the statistics of the successive random tables (one per call of `rcont2`,
+as long as the caller likes); returns the final `count`.  ContingencyTableTest.cpp:81-97 -/
+def mcCount (stat : α) : Nat → List α → Nat → R Nat
+  | 0, _, count => .ok count
+  | _ + 1, [], _ => .error .starved
+  | n + 1, s :: ss, count => mcCount stat n ss (if Scalar.geb s stat then count + 1 else count)
+
+/-- how often the body of `for (unsigned int k = 0; k OP nbPermutations; ++k)` runs, for the
+comparison operator `OP` found in the source (`Generated.comparisons`, site
+`ContingencyTableTest.loop`; ContingencyTableTest.cpp:81) -/
+def loopIterations (op : String) (nb : Nat) : Option Nat :=
+  if op = "<" then some nb else if op = "<=" then some (nb + 1) else none
+
+/-- the Monte-Carlo branch of the constructor (`nbPermutations > 0`), transcribed:
+`count = 0; for (k = 0; k OP nb; ++k) {…}; pvalue_ = (double)(count + 1) / (double)(nb + 1)` -/
+def mcPValueWith (op : String) (stat : α) (nb : Nat) (sims : List α) : R α :=
+  match loopIterations op nb with
+  | none => .error .unreachable
+  | some iters =>
+    match mcCount stat iters sims 0 with
+    | .error e => .error e
+    | .ok count => .ok (pvalueOfCount count nb)
+
+/-- … with the operator the source has (`source_comparisons` proves it is `<`) -/
+def mcPValue (stat : α) (nb : Nat) (sims : List α) : R α := mcPValueWith "<" stat nb sims
+
 end PValue
 
 /-! ## executable predicates evaluated on the implementation's answers (the theorems of
@@ -508,6 +673,8 @@ structure RandC where
   dist : String
   callee : String
   args : List Expr
+  /-- what is added to the callee's result (`+ offset_`, `+ min_`); `.lit 0 1` when nothing is -/
+  shift : Expr
   deriving DecidableEq, Repr
 
 /-- canonical parametrisation of a law (the one of Mathlib's `gaussianReal μ v`, `expMeasure r`,
@@ -519,17 +686,24 @@ inductive LawFam | normal | exponential | gamma | beta | uniform | bernoulli
 structure LawS where
   fam : LawFam
   params : List Expr
+  /-- location: the law is that of `loc + X`, `X` following `fam params` -/
+  loc : Expr
   deriving DecidableEq, Repr
+
+/-- parameters that the theorems restrict to non-negative values: the only rewriting rule of
+`Expr.norm` that is not an identity of the field of reals is `√x · √x = x`, applied to these only -/
+def nonnegParams : List String := ["variance"]
 
 namespace Expr
 def one : Expr := .lit 1 1
+def zero : Expr := .lit 0 1
 
 /-- syntactic simplifications that are identities on positive reals (soundness:
 `BppProofs/Lemmas/Rand.lean`, `eval_norm`) -/
 def norm : Expr → Expr
   | .mul a b =>
     match norm a, norm b with
-    | .sqrt (.var x), .sqrt (.var y) => if x = y then .var x else .mul (.sqrt (.var x)) (.sqrt (.var y))
+    | .sqrt (.var x), .sqrt (.var y) => if x = y ∧ x ∈ nonnegParams then .var x else .mul (.sqrt (.var x)) (.sqrt (.var y))
     | a', b' => .mul a' b'
   | .div a b =>
     match norm a, norm b with
@@ -537,7 +711,12 @@ def norm : Expr → Expr
     | .lit 1 1, .div (.lit 1 1) y => y
     | a', b' => .div a' b'
   | .sqrt a => .sqrt (norm a)
-  | .add a b => .add (norm a) (norm b)
+  | .add a b =>
+    match norm a, norm b with
+    | .lit 0 1, b' => b'                                   -- 0 + b = b
+    | a', .lit 0 1 => a'                                   -- a + 0 = a
+    | .sub x y, b' => if y = b' then x else .add (.sub x y) b'   -- (x - y) + y = x
+    | a', b' => .add a' b'
   | .sub a b => .sub (norm a) (norm b)
   | e => e
 
@@ -555,12 +734,12 @@ end Expr
 (cppreference / ISO C++ [rand.dist]: normal(mean, stddev); gamma(shape α, scale β);
 exponential(rate λ); uniform_real(a, b); bernoulli(p)) -/
 def stdLawS : StdFamily → List Expr → Option LawS
-  | .normal, [m, sd] => some ⟨.normal, [m, .mul sd sd]⟩
-  | .gamma, [k, scale] => some ⟨.gamma, [k, .div Expr.one scale]⟩
-  | .exponential, [rate] => some ⟨.exponential, [rate]⟩
-  | .uniformReal, [a, b] => some ⟨.uniform, [a, b]⟩
-  | .bernoulli, [p] => some ⟨.bernoulli, [p]⟩
-  | .quantileOfUniform "qBeta", [a, b] => some ⟨.beta, [a, b]⟩   -- qBeta(p, α, β) inverts pBeta(x, α, β)
+  | .normal, [m, sd] => some ⟨.normal, [m, .mul sd sd], Expr.zero⟩
+  | .gamma, [k, scale] => some ⟨.gamma, [k, .div Expr.one scale], Expr.zero⟩
+  | .exponential, [rate] => some ⟨.exponential, [rate], Expr.zero⟩
+  | .uniformReal, [a, b] => some ⟨.uniform, [a, b], Expr.zero⟩
+  | .bernoulli, [p] => some ⟨.bernoulli, [p], Expr.zero⟩
+  | .quantileOfUniform "qBeta", [a, b] => some ⟨.beta, [a, b], Expr.zero⟩   -- qBeta(p, α, β) inverts pBeta(x, α, β)
   | _, _ => none
 
 /-- hand-written table: the law that the library's own cumulative functions mean by the wrapper's
@@ -568,29 +747,41 @@ parameter names (`pNorm(x, mu, sigma)`, `pGamma(x, alpha, beta) = incompleteGamm
 beta is a rate; `pBeta(x, alpha, beta)`; exponential with mean `mean`: rate `1/mean`,
 `ExponentialDiscreteDistribution::pProb = 1 - exp(-lambda x)` with `lambda = 1/mean`) -/
 def libLawS : String → Option LawS
-  | "giveRandomNumberBetweenZeroAndEntry/1" => some ⟨.uniform, [.lit 0 1, .var "entry"]⟩
-  | "flipCoin/1" => some ⟨.bernoulli, [.var "prob"]⟩
-  | "randGaussian/2" => some ⟨.normal, [.var "mean", .var "variance"]⟩
-  | "randGamma/1" => some ⟨.gamma, [.var "alpha", Expr.one]⟩
-  | "randGamma/2" => some ⟨.gamma, [.var "alpha", .var "beta"]⟩
-  | "randBeta/2" => some ⟨.beta, [.var "alpha", .var "beta"]⟩
-  | "randExponential/1" => some ⟨.exponential, [.div Expr.one (.var "mean")]⟩
+  | "giveRandomNumberBetweenZeroAndEntry/1" => some ⟨.uniform, [.lit 0 1, .var "entry"], Expr.zero⟩
+  | "flipCoin/1" => some ⟨.bernoulli, [.var "prob"], Expr.zero⟩
+  | "randGaussian/2" => some ⟨.normal, [.var "mean", .var "variance"], Expr.zero⟩
+  | "randGamma/1" => some ⟨.gamma, [.var "alpha", Expr.one], Expr.zero⟩
+  | "randGamma/2" => some ⟨.gamma, [.var "alpha", .var "beta"], Expr.zero⟩
+  | "randBeta/2" => some ⟨.beta, [.var "alpha", .var "beta"], Expr.zero⟩
+  | "randExponential/1" => some ⟨.exponential, [.div Expr.one (.var "mean")], Expr.zero⟩
   | _ => none
 
 /-- hand-written table: the law of each distribution class according to its own `pProb`
 (`GammaDiscreteDistribution::pProb = pGamma(x, alpha_, beta_)`, `Gaussian…::pProb = pNorm(x, mu_, sigma_)`,
-`Exponential…::pProb = 1 - exp(-lambda_ x)`, `Beta…::pProb = pBeta(x, alpha_, beta_)`);
-bounds / offsets are not part of the table -/
+`Exponential…::pProb = 1 - exp(-lambda_ x)`, `Beta…::pProb = pBeta(x, alpha_, beta_)`,
+`Gamma…::pProb = pGamma(x - offset_, alpha_, beta_)`: location `offset`,
+`Uniform…::pProb = (x - min_) / (max_ - min_)`);
+the restriction to the bounds (rejection loop `while (!intMinMax_->isCorrect(x))`, the truncation
+point of the truncated exponential) is not part of the table -/
 def distLawS : String → Option LawS
-  | "Gamma" => some ⟨.gamma, [.var "alpha", .var "beta"]⟩
-  | "Gaussian" => some ⟨.normal, [.var "mu", .mul (.var "sigma") (.var "sigma")]⟩
-  | "Exponential" => some ⟨.exponential, [.var "lambda"]⟩
-  | "TruncatedExponential" => some ⟨.exponential, [.var "lambda"]⟩
-  | "Beta" => some ⟨.beta, [.var "alpha", .var "beta"]⟩
+  | "Gamma" => some ⟨.gamma, [.var "alpha", .var "beta"], .var "offset"⟩
+  | "Gaussian" => some ⟨.normal, [.var "mu", .mul (.var "sigma") (.var "sigma")], Expr.zero⟩
+  | "Exponential" => some ⟨.exponential, [.var "lambda"], Expr.zero⟩
+  | "TruncatedExponential" => some ⟨.exponential, [.var "lambda"], Expr.zero⟩
+  | "Beta" => some ⟨.beta, [.var "alpha", .var "beta"], Expr.zero⟩
+  | "Uniform" => some ⟨.uniform, [.var "min", .var "max"], Expr.zero⟩
   | _ => none
 
-def LawS.norm (l : LawS) : LawS := ⟨l.fam, l.params.map Expr.norm⟩
-def LawS.subst (σ : String → Option Expr) (l : LawS) : LawS := ⟨l.fam, l.params.map (Expr.subst σ)⟩
+def LawS.norm (l : LawS) : LawS := ⟨l.fam, l.params.map Expr.norm, Expr.norm l.loc⟩
+def LawS.subst (σ : String → Option Expr) (l : LawS) : LawS := ⟨l.fam, l.params.map (Expr.subst σ), Expr.subst σ l.loc⟩
+
+/-- the law of `e + X` when `X` follows `l`: location families absorb the shift in their own
+parameters (uniform: both end points; normal: the mean), the others in `loc` -/
+def LawS.shift (e : Expr) (l : LawS) : LawS :=
+  match l.fam, l.params with
+  | .uniform, [a, b] => ⟨.uniform, [.add a e, .add b e], l.loc⟩
+  | .normal, [m, v] => ⟨.normal, [.add m e, v], l.loc⟩
+  | _, _ => ⟨l.fam, l.params, .add l.loc e⟩
 
 /-- decidable form of `wrapper_conventions` for one wrapper -/
 def wrapperOk (w : Wrapper) : Bool :=
@@ -601,7 +792,7 @@ def wrapperOk (w : Wrapper) : Bool :=
 /-- the law a `randC` draws from: the callee's library law with the call's arguments substituted -/
 def randCLawS (ws : List Wrapper) (r : RandC) : Option LawS :=
   match ws.find? (fun w => w.name == r.callee), libLawS r.callee with
-  | some w, some l => some (l.subst (fun n => ((w.params.zip r.args).find? (fun p => p.1 == n)).map (·.2)))
+  | some w, some l => some ((l.subst (fun n => ((w.params.zip r.args).find? (fun p => p.1 == n)).map (·.2))).shift r.shift)
   | _, _ => none
 
 def randCOk (ws : List Wrapper) (r : RandC) : Bool :=
